@@ -16,6 +16,7 @@ from .c03_hostile import shape_hash
 
 ID = "C19"
 LEVEL = "exploration"
+SELFTEST_N = 96
 BATCH = 2
 DOUBLE_EVERY = 41
 TASK_LIMIT_S = 1200
